@@ -54,10 +54,26 @@ func main() {
 		}
 		var chunks []chunk
 		h := sha256.New()
+		nread := 0
 		for {
 			l, err := in.ReadBytes('\n')
 			if err != nil {
 				return
+			}
+			nread++
+			if dir != "" && nread == 2 {
+				// a converter that crashes while it is still being fed: after the second
+				// input line it prints one chunk line and exits (once per stream id and
+				// length of the first line, a marker keeps the retry alive)
+				if _, err := os.Stat(filepath.Join(dir, "diemode")); err == nil {
+					marker := filepath.Join(dir, fmt.Sprintf("die-%d-%d", m.StreamID, len(l)))
+					if _, err := os.Stat(marker); err != nil {
+						os.WriteFile(marker, nil, 0o644)
+						out.WriteString("{\"Direction\":\"client-to-server\",\"Content\":\"QQ==\",\"Time\":\"2020-01-01T00:00:00\"}\n")
+						out.Flush()
+						os.Exit(1)
+					}
+				}
 			}
 			l = bytes.TrimSpace(l)
 			if len(l) == 0 {
